@@ -90,6 +90,42 @@ example : ∃ ts', lex (printTokens [⟨.ident, [117, 56], true, false⟩, ⟨.s
     ts'.map (·.text) = [[117, 56], [34, 115, 34], [45], [45], [49], [39, 99, 39]] :=
   C19_relex_same_kinds _ (by decide)
 
+/-- **C19 (which printers are faithful).**  Take ANY printer that writes, before each token, a separator chosen from the
+    previous token and the token (flags, spellings, anything in them) and a newline at the end.  If every separator consists of
+    blanks and newlines, and the separator is EMPTY only where `need_space` says the two spellings may touch, then for every
+    list of self-lexing spellings the printed text is read back by `tokenize` as exactly those kinds and spellings.  Whether a
+    token gets a newline or a blank, and when, is free (it is cosmetic); the only obligation is the one on the empty
+    separator — the branch of `print_tokens` that a change of its newline logic must keep reaching (seeded change C19c dropped it
+    for `at_bol` tokens inside an expansion: `unsigned` newline `long` → `unsignedlong`). -/
+theorem C19_roundtrip_any_separator_policy (sep : Option Tok → Tok → List Nat)
+    (hb : ∀ p t, isBlank (sep p t) = true)
+    (hn : ∀ p t, sep (some p) t = [] → needSpace p.text t.text = false)
+    (ts : List Tok) (h : ∀ t ∈ ts, selfLexing t.text = true) :
+    ∃ ts', lex (printWith sep none ts) = .ok ts' ∧ ts'.map (·.text) = ts.map (·.text) ∧
+      ts'.map (·.kind) = ts.map (fun t => kindOf t.text) := by
+  refine ⟨_, lex_printWith sep hb hn ts h, ?_, ?_⟩
+  · rw [tokensOf_text, itemsWith_text]
+  · rw [tokensOf_kind]
+    have := congrArg (List.map kindOf) (itemsWith_text sep ts none)
+    simpa [List.map_map, Function.comp_def] using this
+
+/-- `print_tokens` is such a printer … -/
+theorem C19_print_tokens_is_such_a_printer :
+    (∀ ts, printWith sepBefore none ts = printTokens ts) ∧ (∀ p t, isBlank (sepBefore p t) = true) ∧
+    (∀ p t, sepBefore (some p) t = [] → needSpace p.text t.text = false) :=
+  ⟨fun ts => printWith_sepBefore none ts, sepBefore_blank, sepBefore_nil⟩
+
+/-- … and non-vacuity with another one: a printer that puts EVERY token on a line of its own -/
+example : ∃ ts', lex (printWith (fun p _ => if p.isSome then [10] else []) none
+      [⟨.ident, [117, 110, 115, 105, 103, 110, 101, 100], true, false⟩, ⟨.ident, [108, 111, 110, 103], true, false⟩,
+       ⟨.punct, [45], false, false⟩, ⟨.punct, [45], false, false⟩]) = .ok ts' ∧
+    ts'.map (·.text) = [[117, 110, 115, 105, 103, 110, 101, 100], [108, 111, 110, 103], [45], [45]] ∧
+    ts'.map (·.kind) = [.ident, .ident, .punct, .punct] := by
+  obtain ⟨ts', h1, h2, h3⟩ := C19_roundtrip_any_separator_policy (fun p _ => if p.isSome then [10] else []) (by intro p t; cases p <;> rfl)
+    (by intro p t h; simp at h) [⟨.ident, [117, 110, 115, 105, 103, 110, 101, 100], true, false⟩, ⟨.ident, [108, 111, 110, 103], true, false⟩,
+       ⟨.punct, [45], false, false⟩, ⟨.punct, [45], false, false⟩] (by decide)
+  exact ⟨ts', h1, h2, by rw [h3]; decide⟩
+
 /-- Full statement of the same-program half on the models: whatever list `ts` the first compilation holds after
     `preprocess2`, compiling the `-E` text hands `parse` the token list (kind after `convert_pp_tokens`, spelling) it would
     have received from `ts` directly.  FALSE for chibicc where a name of the initial macro table survives the first pass
